@@ -526,6 +526,21 @@ pub fn check_history(sum: &mut Summary) {
     if matches!(prop.as_str(), "C04" | "C05" | "C09" | "C10" | "C14" | "C01" | "C03") {
         run_tables(sum);
     }
+    if prop == "C05" {
+        // the model has one iteration-order parameter per HashMap/HashSet iteration site of the source
+        let (sites, problems) = crate::inventory::scan("/repo");
+        let modelled: std::collections::BTreeSet<String> = crate::inventory::MODELLED_SITES.iter().map(|s| s.to_string()).collect();
+        sum.extra.insert("hash_iteration_sites_in_source".into(), json!(sites.iter().collect::<Vec<_>>()));
+        if sites != modelled || !problems.is_empty() {
+            let extra: Vec<&String> = sites.difference(&modelled).collect();
+            let missing: Vec<&String> = modelled.difference(&sites).collect();
+            sum.failures.push(Failure {
+                kind: "CORR".into(),
+                what: format!("the source iterates a HashMap/HashSet where the model has no iteration-order parameter: new sites {:?}, vanished sites {:?}, unparsable {:?}", extra, missing, problems),
+                case: json!({"kind": "inventory", "sites": sites.iter().collect::<Vec<_>>(), "modelled": modelled.iter().collect::<Vec<_>>()}),
+            });
+        }
+    }
     let mut cases = load_corpus_history(&prop);
     sum.extra.insert("corpus_cases".into(), json!(cases.len()));
     cases.extend(gen_history_cases(&prop, &tier, seed));
@@ -1098,6 +1113,11 @@ pub fn main(args: &[String]) -> i32 {
             } else {
                 1
             }
+        }
+        "inventory" => {
+            let (sites, problems) = crate::inventory::scan(args.get(1).map(|s| s.as_str()).unwrap_or("/repo"));
+            println!("{:?} {:?}", sites, problems);
+            0
         }
         "replay" => {
             let prop = args.get(1).cloned().unwrap_or_default();
